@@ -751,15 +751,37 @@ func TestC09(t *testing.T) {
 					plain = append(plain, i)
 				}
 			}
-			if len(plain) > 0 {
+			// round 0: inputs spread over the pool; then one round per
+			// hand-made pool input family (all goroutines on those inputs),
+			// with the encode calls on the hand-made Files at the end of the
+			// pool
+			var special [][]int
+			byName := map[string][]int{}
+			for _, i := range plain {
+				if n := pool.Names[i]; strings.HasPrefix(n, "compressed headers on messages") {
+					byName[n] = append(byName[n], i)
+				}
+			}
+			for _, l := range byName {
+				special = append(special, l)
+			}
+			rounds := append([][]int{plain}, special...)
+			for ri, inputs := range rounds {
+				if len(inputs) == 0 {
+					continue
+				}
 				p := &Program{PoolSeed: seed, Campaign: "A", GoMaxProcs: 8}
 				for g := 0; g < 8; g++ {
 					var list []ops.Op
 					for j := range ops.OpKinds {
 						kind := ops.OpKinds[(j+g)%len(ops.OpKinds)]
-						op := ops.Op{Kind: kind, Idx: plain[(g*7+j)%len(plain)]}
+						op := ops.Op{Kind: kind, Idx: inputs[(g*7+j)%len(inputs)]}
 						if strings.HasPrefix(kind, "encode") {
 							op.Idx = (g + j) % len(pool.Specs)
+							if ri > 0 {
+								// the last eight Files of the pool are hand-made
+								op.Idx = len(pool.Specs) - 1 - (g+j)%8
+							}
 							op.BE = (g+j)%2 == 1
 						}
 						list = append(list, op)
@@ -767,9 +789,10 @@ func TestC09(t *testing.T) {
 					p.Routines = append(p.Routines, list)
 				}
 				rec.Eval("every-kind", 1)
-				rec.NonTrivial(hx.FP("every-kind"))
+				rec.NonTrivial(hx.FP(fmt.Sprint("every-kind", ri)))
 				if sig, msg, ok := runProgram(p, "every-kind"); !ok {
 					rec.Fail("every-kind", sig, "every kind of call on each of 8 goroutines: "+msg, p)
+					break
 				}
 			}
 		}
